@@ -368,7 +368,90 @@ pub fn gen_chain(src: &mut Src, d: usize, elem: Option<&J>, o: &ExprOpts, rbp: u
     cur
 }
 
+fn literals_mut<'a>(e: &'a mut RefExpr, out: &mut Vec<&'a mut J>) {
+    use RefExpr::*;
+    match e {
+        Current | Field(_) => {}
+        Literal(v) => out.push(v),
+        Index(s, _) => {
+            if let Some(s) = s {
+                literals_mut(s, out);
+            }
+        }
+        Dot(a, b2) | Pipe(a, b2) | Or(a, b2) | And(a, b2) | Cmp(_, a, b2) => {
+            literals_mut(a, out);
+            literals_mut(b2, out);
+        }
+        Not(a) | Expref(a) => literals_mut(a, out),
+        Proj { kind, subject, rhs } => {
+            if let Some(s) = subject {
+                literals_mut(s, out);
+            }
+            if let ProjKind::Filter(p) = kind {
+                literals_mut(p, out);
+            }
+            literals_mut(rhs, out);
+        }
+        MultiList(es) => {
+            for x in es {
+                literals_mut(x, out);
+            }
+        }
+        MultiHash(kvs) => {
+            for (_, x) in kvs {
+                literals_mut(x, out);
+            }
+        }
+        Call(_, args) => {
+            for x in args {
+                literals_mut(x, out);
+            }
+        }
+    }
+}
+
+/// Make some literals of one expression depend on earlier ones: the same
+/// value again, a value one step away (loosely equal numbers, one character
+/// changed), the same characters under the other delimiter (a raw string
+/// holding the JSON text of an earlier literal, or the value an earlier raw
+/// string spells).  Literals are independent of each other, however similar.
+pub fn relate_literals(e: &mut RefExpr, src: &mut Src) -> bool {
+    let mut lits: Vec<&mut J> = vec![];
+    literals_mut(e, &mut lits);
+    let mut changed = false;
+    for i in 1..lits.len() {
+        if !src.chance(40) {
+            continue;
+        }
+        let prev: J = (*lits[src.below(i)]).clone();
+        let new = match src.below(4) {
+            0 => prev,
+            1 => crate::gen_doc::near_value(&prev, src),
+            2 => J::Str(prev.to_json()),
+            _ => match &prev {
+                J::Str(s) => match J::parse(s) {
+                    Ok(p) if p.to_json() == *s => p,
+                    _ => J::Str(format!("{} ", s)),
+                },
+                other => J::Str(other.to_json()),
+            },
+        };
+        *lits[i] = new;
+        changed = true;
+    }
+    changed
+}
+
 pub fn gen_expr(src: &mut Src, d: usize, hint: Option<&J>, o: &ExprOpts) -> RefExpr {
+    if d == 0 {
+        let mut e = gen_expr_at(src, 0, hint, o);
+        relate_literals(&mut e, src);
+        return e;
+    }
+    gen_expr_at(src, d, hint, o)
+}
+
+fn gen_expr_at(src: &mut Src, d: usize, hint: Option<&J>, o: &ExprOpts) -> RefExpr {
     if d >= o.max_depth {
         return gen_leaf(src, hint, o);
     }
